@@ -144,6 +144,11 @@ def relabel(rng, edges, extra_vertices=0):
         for i in range(min(nv, len(pool))):
             if pool[i] not in labels[:i] and pool[i] not in labels[i + 1:]:
                 labels[i] = pool[i]
+    if rng.random() < 0.15:
+        # the ends of the u8 range (255 = MAX_VERTICES - 1, and 0)
+        for lab in (255, 0):
+            if lab not in labels:
+                labels[rng.randrange(nv)] = lab
     return [(labels[a], labels[b]) for a, b in edges], labels[:nv], labels[nv:]
 
 
